@@ -94,6 +94,8 @@ def fiBody (t : IntTy) (term : Bool) (base : Int) (num : Int) (buf : List Nat) (
     `[str, str+length)` before the call. -/
 def fromInteger (t : IntTy) (term : Bool) (num : Int) (buf : List Nat) (base : Int) : Except Err FIRes :=
   let res := if term then 1 else 0
+  -- the precondition of [charconv.to.chars] (`base` in `[2, 36]`), not a `TETL_PRECONDITION`: the code has
+  -- no check (base 1 never terminates, base 0 divides by zero in `idiv`); the theorems assume it
   if base < 2 || base > 36 then .error (.pre "2 <= base <= 36")
   else if !t.inRange num then .error (.pre "num is a value of Int")
   else if num == 0 then
@@ -210,6 +212,23 @@ def toIntegerDigits (t : IntTy) (s : List Nat) (base : Int) (neg : Bool) (pos1 :
           .ok ⟨pos, .none, v⟩
       else .ok ⟨pos, .none, value⟩
 
+/-- the `if (base == Int(0))` block (`strtol`'s auto-detection, after the optional sign; the caller has
+    checked `pos != length`): `0x`/`0X` followed by a hex digit selects base 16 and the prefix is skipped,
+    any other leading `0` selects base 8, everything else base 10.  Returns `(base, pos)`.
+    `length - pos > 2 and (str[pos+1] == 'x' or str[pos+1] == 'X') and parseDigit(str[pos+2]) < Int(16)`
+    short-circuits left to right: the nested `if`s. -/
+def detectBase (t : IntTy) (s : List Nat) (pos : Nat) : Except Err (Int × Nat) := do
+  let c0 ← rd s pos
+  if c0 == 48 then
+    if s.length - pos > 2 then do
+      let c1 ← rd s (pos + 1)
+      if c1 == 120 || c1 == 88 then do
+        let c2 ← rd s (pos + 2)
+        if parseDigit t (toInt c2) < 16 then .ok (16, pos + 2) else .ok (8, pos)
+      else .ok (8, pos)
+    else .ok (8, pos)
+  else .ok (10, pos)
+
 /-- `to_integer` after the white-space loop, `pos0` = current `pos` -/
 def toIntegerAt (t : IntTy) (s : List Nat) (base : Int) (pos0 : Nat) : Except Err TIRes :=
   if pos0 == s.length then .ok (.mkErr .invalid)
@@ -218,14 +237,69 @@ def toIntegerAt (t : IntTy) (s : List Nat) (base : Int) (pos0 : Nat) : Except Er
     let neg := t.signed && (toInt c0 == 45)
     let pos1 := if neg then pos0 + 1 else pos0
     if neg && pos1 == s.length then .ok (.mkErr .invalid)
+    else if base == 0 then do
+      let (b, p) ← detectBase t s pos1
+      toIntegerDigits t s b neg p
     else toIntegerDigits t s base neg pos1
 
-/-- `to_integer<Int, {skip_whitespace = ws, check_overflow = true}>(str, base)` -/
+/-- `to_integer<Int, {skip_whitespace = ws, check_overflow = true}>(str, base)` (the configuration of every
+    wrapper; `check_overflow = false` is `toIntegerNC` below); `base` is 0
+    (auto-detect, as `strtol`) or in `[2, 36]` — the precondition of [charconv.from.chars] / C17 7.22.1.4,
+    not a `TETL_PRECONDITION` (the code has no check). -/
 def toInteger (t : IntTy) (ws : Bool) (s : List Nat) (base : Int) : Except Err TIRes :=
-  if base < 2 || base > 36 then .error (.pre "2 <= base <= 36")
+  if base != 0 && (base < 2 || base > 36) then .error (.pre "base = 0 or 2 <= base <= 36")
   else do
     let pos0 ← if ws then skipWs s s.length 0 else .ok 0
     toIntegerAt t s base pos0
+
+/-! ### `check_overflow = false` (`nop_overflow_checker`) -/
+
+/-- the digit loop with `nop_overflow_checker` (`wouldOverflow` is constantly `false`): no `overflow` exit;
+    an accumulation step that leaves the type wraps (unsigned / promoted types) or is undefined behaviour
+    (`int`, `long`: `.error`) -/
+def tiLoopNC (t : IntTy) (base : Int) (s : List Nat) : Nat → Nat → Int → Except Err (Int × Nat)
+  | 0, pos, value => .ok (value, pos)
+  | n + 1, pos, value => do
+    let c ← rd s pos
+    let digit := parseDigit t (toInt c)
+    if digit ≥ base then .ok (value, pos)
+    else do
+      let value ← t.arith (if t.signed then value * base - digit else value * base + digit)
+      tiLoopNC t base s n (pos + 1) value
+
+def toIntegerDigitsNC (t : IntTy) (s : List Nat) (base : Int) (neg : Bool) (pos1 : Nat) : Except Err TIRes := do
+  let c1 ← rd s pos1
+  let digit := parseDigit t (toInt c1)
+  let value ← firstValue t digit
+  let pos2 := pos1 + 1
+  if (if value < 0 then -value else value) ≥ base then .ok (.mkErr .invalid)
+  else do
+    let (value, pos) ← tiLoopNC t base s (s.length - pos2) pos2 value
+    if t.signed && !neg then
+      if value == t.minV then .ok (.mkErr .overflow)
+      else do
+        let v ← t.arith (value * (-1))
+        .ok ⟨pos, .none, v⟩
+    else .ok ⟨pos, .none, value⟩
+
+def toIntegerAtNC (t : IntTy) (s : List Nat) (base : Int) (pos0 : Nat) : Except Err TIRes :=
+  if pos0 == s.length then .ok (.mkErr .invalid)
+  else do
+    let c0 ← rd s pos0
+    let neg := t.signed && (toInt c0 == 45)
+    let pos1 := if neg then pos0 + 1 else pos0
+    if neg && pos1 == s.length then .ok (.mkErr .invalid)
+    else if base == 0 then do
+      let (b, p) ← detectBase t s pos1
+      toIntegerDigitsNC t s b neg p
+    else toIntegerDigitsNC t s base neg pos1
+
+/-- `to_integer<Int, {skip_whitespace = ws, check_overflow = false}>(str, base)` -/
+def toIntegerNC (t : IntTy) (ws : Bool) (s : List Nat) (base : Int) : Except Err TIRes :=
+  if base != 0 && (base < 2 || base > 36) then .error (.pre "base = 0 or 2 <= base <= 36")
+  else do
+    let pos0 ← if ws then skipWs s s.length 0 else .ok 0
+    toIntegerAtNC t s base pos0
 
 inductive FCRes where
   | ok (v : Int) (ptr : Nat)
@@ -249,6 +323,10 @@ def cstrOf (s : List Nat) : List Nat := s.takeWhile (· != 0)
 def strto (t : IntTy) (s : List Nat) (base : Int) : Except Err (Int × Nat) := do
   let r ← toInteger t true s base
   .ok (r.value, r.endPos)
+
+/-- `strtol/strtoll/strtoul/strtoull(str, &last, base)` on a `char const*`: the `string_view(str)`
+    constructor measures the text with `strlen`, i.e. nothing at or after the first NUL is looked at -/
+def cstrto (t : IntTy) (s : List Nat) (base : Int) : Except Err (Int × Nat) := strto t (cstrOf s) base
 
 /-- `atoi/atol/atoll(str)` -/
 def ato (t : IntTy) (s : List Nat) : Except Err Int := do
